@@ -292,7 +292,10 @@ def _rebuild_prefix(ctx, f):
                 continue
             seen.add(nm)
             for st in body_stores.get(nm, []):
-                if isinstance(st, ast.AugAssign) or nm in _names(st.value):
+                # carried from level to level: the new value depends on the
+                # old one, or the store itself happens only while it holds
+                if isinstance(st, ast.AugAssign) or nm in _names(st.value) or any(
+                        nm in _names(t) for t, _pol in guards(st, stop=lp)):
                     carried.add(nm)
                 todo.append(st.value)
     # a carried flag must be re-initialised for every point (inside the while,
